@@ -45,3 +45,8 @@ add("C01", "c01", "exploration", 300, 6000,
     assumptions=["own sha256 and an independent (repo,digest)->bytes map are the oracle",
                  "degenerate ranges (o1 >= 0 and o1 <= o0, or o0 beyond the end) may fail or return the exact empty slice; range reads are not digest-verified by the client (documented), so only complete reads must fail on corruption",
                  "corruptions are applied by a RoundTripper between client and server; net/http itself is trusted"])
+
+add("C05", "c05", "exploration", 600, 12000,
+    t={"require": ["multi-page", "start-after", "fault-below", "iterated-twice", "kind:referrers"]},
+    assumptions=["real loopback HTTP for http layers", "artifactType filter always empty (documented TODO)",
+                 "with a failing layer below, delivered items must be expected items in ascending order and the iteration must end with an error; the exact prefix is not prescribed"])
